@@ -93,9 +93,10 @@ def linksAccepted : Prop := ∀ e ∈ a.comps, ∀ p ∈ e.preds, p.2.acceptsChi
 def registriesExact : Prop :=
   a.sameKeys a.nodesKeys ∧ a.sameKeys (dkeys a.groups) ∧ a.sameKeys (dkeys a.rails) ∧
   a.sameKeys (dkeys a.phaseConf) ∧ ∀ e ∈ a.comps, e.addressable = true
-/-- every recorded input of a multi-input component resolves to a component that feeds it -/
+/-- the recorded inputs of a multi-input component resolve to components that feed it, each of them once -/
 def inputsResolve : Prop :=
-  ∀ e ∈ a.comps, 1 < e.preds.length → ∀ x ∈ e.parents, ∃ p, x = some p ∧ p ∈ e.preds.map (·.1)
+  ∀ e ∈ a.comps, 1 < e.preds.length →
+    (∀ x ∈ e.parents, ∃ p, x = some p ∧ p ∈ e.preds.map (·.1)) ∧ e.parents.Nodup
 
 instance : Decidable a.namesDistinct := by unfold namesDistinct; infer_instance
 instance : Decidable a.railsDistinct := by unfold railsDistinct; infer_instance
